@@ -318,4 +318,85 @@ def rule_f(prog, rep):
     rep.floor('C18.f', n, 2, 'registration application loops')
 
 
-RULES = [('C18.f', rule_f), ('C18.a', rule_a), ('C18.b', rule_b), ('C18.c', rule_c), ('C18.d', rule_d), ('C18.e', rule_e)]
+def rule_g(prog, rep):
+    rep.rule('C18.g', 'T3+T7', 'the change that opens a batch is written first and errors are not swallowed: update_value writes '
+             'table.insert(key, value)? and delete_value table.remove(key)? into the opened table before batch_process(..)? and '
+             'commit()?; restore_entries inserts every table entry into the store (store.insert(parse_segments(key), value, '
+             'force = true)?); apply_last_will applies each entry to the store AND to the table')
+    crate = prog.crate(WB)
+    for fname, op in (('update_value', 'insert'), ('delete_value', 'remove')):
+        f = crate.fn(f'{REDB}::{fname}')
+        b = Bindings(crate, f)
+
+        def classify(nd, anc, op=op):
+            if nd.get('k') != 'call':
+                return None
+            c = callee(nd)
+            if 'redb::' in c and short(c) == op and 'Table' in c:
+                return 'op'
+            if c == f'{REDB}::batch_process':
+                return 'batch'
+            if short(c) == 'commit' and 'redb::' in c:
+                return 'commit'
+            return None
+        paths = Tracer(crate, classify).run_fn(f)
+        problems = []
+        oks = ok_exits(paths)
+        for (ex, t, v) in oks:
+            tb = [base(x) for x in t if '@' not in x]
+            if tb != ['op', 'batch', 'commit']:
+                problems.append(f'an Ok exit with the steps {tb}')
+        if not oks:
+            problems.append('no Ok path')
+        # a failed step may not be followed by commit
+        for (ex, t, v) in paths:
+            if any(x in t for x in ('op@Err', 'batch@Err')) and 'commit' in [base(x) for x in t if '@' not in x]:
+                problems.append('commit after a failed step')
+        opc = [nd for nd, a in crate.walk_fn(f) if nd.get('k') == 'call' and 'redb::' in callee(nd) and short(callee(nd)) == op and 'Table' in callee(nd)]
+        for nd_, anc_ in crate.walk_fn(f):
+            if nd_.get('k') == 'call' and (nd_ in opc or callee(nd_) == f'{REDB}::batch_process' or (short(callee(nd_)) == 'commit' and 'redb::' in callee(nd_))):
+                chain = [x for x in anc_ if isinstance(x, dict)]
+                if not chain or chain[-1].get('k') != 'try':
+                    problems.append(f'the result of {short(callee(nd_))} is not propagated with `?`')
+        if len(opc) == 1:
+            if b.origins(opc[0]['args'][1]) != {'param(key)'}:
+                problems.append(f'the key written is not the key of the action ({sorted(b.origins(opc[0]["args"][1]))})')
+            if op == 'insert' and b.origins(opc[0]['args'][2]) != {'param(value)'}:
+                problems.append('the value written is not the value of the action')
+        else:
+            problems.append(f'{len(opc)} table.{op} sites')
+        if problems:
+            rep.violation('C18.g', fname, f.loc, '; '.join(sorted(set(problems))), key=f'C18.g/{fname}/' + '|'.join(sorted({p_.split(' (')[0] for p_ in problems})))
+        else:
+            rep.ok('C18.g', fname, f.loc, f'table.{op}(key..)? -> batch_process(..)? -> commit()?')
+    f = crate.fn(f'{REDB}::restore_entries')
+    b = Bindings(crate, f)
+    ins = [(nd, a) for nd, a in crate.walk_fn(f) if nd.get('k') == 'call' and callee(nd) == f'{STORE}::insert']
+    good = False
+    if ins:
+        nd, anc = ins[0]
+        in_loop = any(isinstance(x, dict) and x.get('k') == 'for' for x in anc)
+        chain = [x for x in anc if isinstance(x, dict)]
+        good = in_loop and chain[-1].get('k') == 'try' and b.origins(nd['args'][3]) == {'lit(True)'} and \
+            all('parse_segments' in x for x in b.origins(nd['args'][1])) and not [it for it in guards(anc + (nd,)) if it[0] == 'if']
+    if good:
+        rep.ok('C18.g', 'restore_entries', f.loc, 'every entry of the table: store.insert(parse_segments(key), value, true)?')
+    else:
+        rep.violation('C18.g', 'restore_entries', f.loc, 'not every persisted entry is inserted into the store (forced, unconditionally)', key='C18.g/restore_entries')
+    f = crate.fn(f'{REDB}::apply_last_will')
+    lp = [nd for nd, a in crate.walk_fn(f) if nd.get('k') == 'for']
+    cs = {short(callee(nd)) + ('@table' if 'redb::' in callee(nd) else '') for nd, a in walk(lp[0]['body']) if nd.get('k') == 'call'} if lp else set()
+    if 'insert_plain' in cs and 'insert@table' in cs:
+        rep.ok('C18.g', 'apply_last_will', f.loc, 'each last-will entry goes into the store and into the table')
+    else:
+        rep.violation('C18.g', 'apply_last_will', f.loc, f'a last-will entry is not applied to both the store and the table ({sorted(cs)})', key='C18.g/apply_last_will')
+    f = crate.fn(f'{REDB}::apply_grave_good')
+    lp = [nd for nd, a in crate.walk_fn(f) if nd.get('k') == 'for']
+    cs = {short(callee(nd)) + ('@table' if 'redb::' in callee(nd) else '') for nd, a in walk(lp[0]['body']) if nd.get('k') == 'call'} if lp else set()
+    if 'delete_matches' in cs and 'remove@table' in cs:
+        rep.ok('C18.g', 'apply_grave_good', f.loc, 'each grave-goods pattern is deleted from the store and every removed key from the table')
+    else:
+        rep.violation('C18.g', 'apply_grave_good', f.loc, f'grave goods are not applied to both the store and the table ({sorted(cs)})', key='C18.g/apply_grave_good')
+
+
+RULES = [('C18.g', rule_g), ('C18.f', rule_f), ('C18.a', rule_a), ('C18.b', rule_b), ('C18.c', rule_c), ('C18.d', rule_d), ('C18.e', rule_e)]
